@@ -20,9 +20,9 @@ from ..evidence import Run, canon_hash
 PID = "C13"
 SHARDS = {"quick": 8, "thorough": 16}
 SHARD_TIMEOUT = {"quick": 170, "thorough": 1500}
-N_CASES = {"quick": 560, "thorough": 9600}
+N_CASES = {"quick": 560, "thorough": 6400}
 N_DRAWS = {"quick": 8, "thorough": 25}
-N_COLD = {"quick": 10, "thorough": 80}
+N_COLD = {"quick": 10, "thorough": 64}
 
 
 def new_run():
@@ -318,7 +318,7 @@ def _pyval(v, cls):
 HAS_STRATEGY = {"eq", "ne", "gt", "ge", "lt", "le", "in_range", "isin", "notin",
                 "str_matches", "str_contains", "str_startswith", "str_endswith",
                 "str_length", "c_strat"}
-ROW_STRATEGY_DF_CHECKS = HAS_STRATEGY | {"c_ew"}
+ROW_STRATEGY_DF_CHECKS = HAS_STRATEGY | {"c_dfew"}
 
 
 def classify(case, fl, d):
@@ -403,11 +403,25 @@ def classify(case, fl, d):
     if k in ("c_vec", "c_agg") and in_index:
         return "index_strategy-no-fallback-for-vectorised-check"
 
+    shifted = cls == "dt" and G.tz_of(f["dtype"]) not in (None, "UTC") and via_numpy_column
+
+    def matches(v, e):
+        """v is e - possibly after the known value distortions of time data"""
+        if _same(v, e) or _trunc_equal(v, e, cls):
+            return True
+        if shifted:
+            try:
+                x = v.tz_localize(None).tz_localize("UTC").tz_convert(v.tz)
+                return _same(x, e) or _trunc_equal(x, e, cls)
+            except Exception:           # noqa: BLE001
+                return False
+        return False
+
     # a later eq() throws away everything before it
     for j in range(i + 1, len(chain)):
         if chain[j]["k"] == "eq":
             ev = G.dec(chain[j]["a"]["value"])
-            if all(_same(v, ev) or _trunc_equal(v, ev, cls) for v in vals):
+            if all(matches(v, ev) for v in vals):
                 return "eq_strategy-replaces-preceding-chain"
 
     # literal interpolated into a regular expression
@@ -425,10 +439,10 @@ def classify(case, fl, d):
     if k == "in_range" and cls != "float" and effective_base:
         excluded = ([a["min_value"]] if not a["include_min"] else []) + \
                    ([a["max_value"]] if not a["include_max"] else [])
-        if excluded and all(any(_same(v, e) or _trunc_equal(v, e, cls) for e in excluded) for v in vals):
+        if excluded and all(any(matches(v, e) for e in excluded) for v in vals):
             return "in_range_strategy-exclusive-bounds-ignored-for-non-float"
 
-    if cls == "dt" and G.tz_of(f["dtype"]) not in (None, "UTC") and via_numpy_column:
+    if shifted:
         # naive UTC values are tz_localize()d: every value is off by the offset
         try:
             fixed = [v.tz_localize(None).tz_localize("UTC").tz_convert(v.tz) for v in vals]
@@ -557,6 +571,7 @@ def count_case_classes(run, case, prefix):
         if f.get("regex"):
             run.count(f"{prefix}regex_column")
     if case.get("df_checks"):
+        run.count(f"{prefix}with_df_checks")
         for c in case["df_checks"]:
             run.count(f"{prefix}df_check:{c['k']}")
     if case.get("index"):
@@ -736,8 +751,41 @@ def _norm_msg(exc):
     return f"{type(exc).__name__}: {m}"
 
 
+# floors: about 1/4 of what a quick run observes on the unchanged tree (seeds
+# 0,1,2,3,12345, machine heavily loaded, so with many time-limited cases);
+# thorough runs ~17x the cases with 3x the draws
+FLOORS_QUICK = {
+    "draws_judged": 450, "cases_with_draws": 90, "draw_accepted": 300,
+    "unsat:reported": 8, "cold:draws_judged": 12, "cold:cases_with_draws": 3,
+    "judged:kind:series": 20, "judged:kind:column": 15, "judged:kind:index": 10,
+    "judged:kind:multiindex": 5, "judged:kind:frame": 30,
+    "judged:api:example": 10, "judged:api:strategy": 70,
+    "judged:flags:nullable=1,unique=1": 18, "judged:flags:nullable=1,unique=0": 25,
+    "judged:flags:nullable=0,unique=1": 18,
+    "judged:int_in_range_exclusive_bound": 5,
+    "judged:regex_special_in_string_arg:str_startswith": 2,
+    "judged:regex_column": 4, "judged:with_df_checks": 6,
+    "judged:with_index:single": 6, "judged:with_index:multi": 2,
+    "judged:chain_len:1": 40, "judged:chain_len:2": 40, "judged:chain_len:3": 20,
+    "distinct_ordered_check_pairs_judged": 50,
+    "dtypes_judged": len(G.ALL_DTYPES) - 2,
+    "sizes_judged": 7,
+}
+
+
 def finalize(run, ctx):
-    pass
+    c = run.counters
+    c["distinct_ordered_check_pairs_judged"] = sum(1 for k in c if k.startswith("order:"))
+    c["dtypes_judged"] = sum(1 for d in G.ALL_DTYPES if c.get(f"judged:dtype:{d}", 0) > 0)
+    c["sizes_judged"] = sum(1 for z in G.SIZES if c.get(f"judged:size:{z}", 0) > 0)
+    mult = 1 if ctx.tier == "quick" else 8
+    for name, m in FLOORS_QUICK.items():
+        run.floors[name] = m if name in ("dtypes_judged", "sizes_judged") else m * mult
+    if ctx.tier == "thorough":
+        run.floors["dtypes_judged"] = len(G.ALL_DTYPES)
+        run.floors["distinct_ordered_check_pairs_judged"] = 150
+    run.extra["supported_dtypes_generated"] = list(G.ALL_DTYPES)
+    run.extra["draws_per_case"] = N_DRAWS[ctx.tier]
 
 
 def replay(path):
